@@ -62,3 +62,63 @@ From SudachiVerif Require Import Model.CodecCheck.
 Example ex_ops :
   check_c11_ops [2; 0] [OpSubset 0 0; OpCollect 0 0; OpSubset 0 1023; OpCollect 0 1023; OpCollect 0 1023; OpCollect 1 1023] = true.
 Proof. vm_compute. reflexivity. Qed.
+
+(* ------------------------------------------------------------------ boundaries under a subset *)
+From SudachiVerif Require Import Model.SubsetPipeline Proofs.SubsetBoundaries.
+From SudachiVerif Require Model.Rewrite Model.Split.
+
+(* a lexicon with the full-width digits ２ and ３ (normalised forms 2 and 3, part of speech 7) and 東京都 = 東京 / 都 in mode A *)
+Definition e_d2 : entry := mkEntry [65298] 3 7 [50] 4294967295 [] [] [] [] [] 0 0 0.
+Definition e_d3 : entry := mkEntry [65299] 3 7 [51] 4294967295 [] [] [] [] [] 0 0 0.
+Definition e_tokyo : entry := mkEntry [26481; 20140] 6 4 [] 4294967295 [] [] [] [] [] 0 0 0.
+Definition e_to : entry := mkEntry [37117] 3 4 [] 4294967295 [] [] [] [] [] 0 0 0.
+Definition e_tokyoto : entry := mkEntry [26481; 20140; 37117] 9 4 [] 4294967295 [] [2; 3] [] [2; 3] [] 0 0 0.
+Definition lx_b : lexicon :=
+  match write_infos [e_d2; e_d3; e_tokyo; e_to; e_tokyoto] with
+  | Some infos => (fix tails (l : list bytes) := match l with [] => [] | b :: t => (b ++ List.concat t) :: tails t end) infos
+  | None => []
+  end.
+Definition gi (L w : N) : option winfo := lexset_get lx_b true 0 10 10 w L.
+
+Example ex_lx_b_ok : lex_ok lx_b.
+Proof. intros bs H. cbn in H. repeat (destruct H as [<-|H]; [vm_compute; discriminate|]). contradiction. Qed.
+(* so gi meets the contract (hypothesis of C11_boundaries_preserved) *)
+Example ex_gi_ok : getinfo_ok gi.
+Proof. exact (lexset_getinfo_ok (conj eq_refl eq_refl) lx_b 0 10 10 ex_lx_b_ok). Qed.
+
+Definition NUMC : N := Rewrite.RF.NUMERIC.
+Definition path_23 : list pnode := [ mkP 0 1 0 3 0 false [65298] NUMC NUMC; mkP 1 2 3 6 1 false [65299] NUMC NUMC ].
+Definition ranges_of (x : option (option (Rewrite.res (list Rewrite.node)))) : list (nat * nat) :=
+  match x with Some (Some (Rewrite.Ok q)) => map (fun n => (Rewrite.nb n, Rewrite.ne n)) q | _ => [] end.
+
+(* requested {SURFACE, POS_ID, NORMALIZED_FORM}: JoinNumeric joins ２３ exactly as with all fields *)
+Example ex_boundaries_with_norm :
+  (ranges_of (rewritten gi (loaded_for 13 Split.ModeC Split.ModeC true) [Rewrite.PNumeric true 7] path_23),
+   ranges_of (rewritten gi ALL [Rewrite.PNumeric true 7] path_23)) = ([(0, 2)], [(0, 2)])%nat.
+Proof. vm_compute. reflexivity. Qed.
+
+(* the hypothesis on the subset is needed: with {SURFACE, POS_ID} only, normalized_form() falls back to the full-width
+   surface, the numeral parser rejects it and the two digits stay apart (the behaviour of the real code) *)
+Example C11_boundaries_without_normalized_form_refuted :
+  (ranges_of (rewritten gi (loaded_for 5 Split.ModeC Split.ModeC true) [Rewrite.PNumeric true 7] path_23),
+   ranges_of (rewritten gi ALL [Rewrite.PNumeric true 7] path_23)) = ([(0, 1); (1, 2)], [(0, 2)])%nat.
+Proof. vm_compute. reflexivity. Qed.
+(* ... while without a plugin the same subset keeps the boundaries of the path *)
+Example ex_no_plugin_any_subset :
+  ranges_of (rewritten gi (loaded_for 0 Split.ModeC Split.ModeC true) [] path_23) = [(0, 1); (1, 2)]%nat.
+Proof. vm_compute. reflexivity. Qed.
+
+(* mode A with the EMPTY requested subset: set_mode loads SPLIT_A, 東京都 is split into 東京 / 都 exactly as with all fields *)
+Definition path_tokyoto : list pnode := [ mkP 0 3 0 9 4 false [] 0 0 ].
+Example ex_words_known : words_known gi (map snode_of_p path_tokyoto).
+Proof.
+  intros n [<-|[]] _. eexists. split; [vm_compute; reflexivity|].
+  intros u Hu. vm_compute in Hu. repeat (destruct Hu as [<-|Hu]; [vm_compute; discriminate|]). contradiction.
+Qed.
+Example ex_split_mode_a :
+  (option_map (map (fun n => (Split.nb n, Split.ne n, Split.wid n)))
+     (split_stage gi (loaded_for 0 Split.ModeC Split.ModeA false) [26481; 20140; 37117] Split.ModeA path_tokyoto),
+   option_map (map (fun n => (Split.nb n, Split.ne n, Split.wid n)))
+     (split_stage gi ALL [26481; 20140; 37117] Split.ModeA path_tokyoto))
+  = (Some [(0, 2, 2); (2, 3, 3)], Some [(0, 2, 2); (2, 3, 3)]).
+Proof. vm_compute. reflexivity. Qed.
